@@ -71,6 +71,7 @@ Verdict(c) ==
     ELSE IF \E k \in DOMAIN A : ~OnePerSite(c, A[k].carry) THEN "OnePerSite"
     ELSE IF \E v \in d.supp : Carriers(A, v) = 0 THEN "SupportedIsCarried"
     ELSE IF SumDom(A, LAMBDA k : Cardinality({v \in Added(c, A[k]) : v \in d.homo})) > 12 THEN "UNDECIDED:FillSpaceTooLarge"
+    ELSE IF Len(c.phases) * c.nalleles > c.phaseVars THEN "UNDECIDED:PhasePatternsDownsampled"
     ELSE
     LET pre == {X \in PreFill(c, d, A, 1) : (\A k \in DOMAIN X : CopyOK(c, d, X[k])) /\ Admissible(c, d, X)}
     IN
